@@ -17,8 +17,8 @@ use vh_common::serde_json::json;
 use vh_common::*;
 use std::collections::BTreeMap;
 
-fn gen_contended(r: &mut Rng) -> Vec<String> {
-    let g = GenCfg { universe: *r.pick(&[1, 2, 2, 3]), n_ops: 12 + r.usize(16), malformed: 8 };
+fn gen_contended(r: &mut Rng, long: bool) -> Vec<String> {
+    let g = GenCfg { universe: *r.pick(&[1, 2, 2, 3]), n_ops: if long { 40 + r.usize(51) } else { 12 + r.usize(16) }, malformed: 8 };
     let mut ops = gen_case(r, &g);
     // make sure the unique indexes exist from the start (after the schema line)
     let mut head = vec![ops.remove(0)];
@@ -46,10 +46,11 @@ fn main() {
         cases.push(("replay".into(), read_replay(p)));
     } else {
         if let Some(dir) = &args.corpus { cases.extend(read_corpus(dir)); }
-        let n = args.budget(2500, 40000);
+        let n = args.budget(2500, 24000);
         for i in 0..n {
             let mut r = Rng::for_case(args.seed, i);
-            cases.push((format!("gen{i}"), gen_contended(&mut r)));
+            // thorough: every fourth history is long (40..90 data ops)
+            cases.push((format!("gen{i}"), gen_contended(&mut r, args.thorough() && i % 4 == 0)));
         }
     }
     let mut reported = 0;
